@@ -9,8 +9,12 @@
            IsInt64 -> fits64, Int64 -> wrap64) exactly as in Model/C06_Int.v.
    Part B: a small statement language (Int arithmetic with overflow into big integers,
            comparisons, Bool connectives, String concatenation, locals, if / while / return,
-           method calls, println) with the reference interpreter S (fuel; output trace and
-           outcome).  S computes on mathematical integers.
+           method calls, println; second generation: user classes with single inheritance and
+           method overriding, objects with one immutable Int field, dynamically dispatched
+           sends, list literals, for-in loops, Symbol / Char / nil values and dynamic inspect)
+           with the reference interpreter S (fuel; output trace and outcome).  S computes on
+           mathematical integers and dispatches sends on the RUNTIME class of the receiver
+           (own method first, then the nearest ancestor's).
    Part C: observations of a finished run and the relation obs_equiv.                      *)
 From Coq Require Import ZArith List String Ascii Bool DecimalString.
 From Elk Require Import Base.GoSem Model.C06_Int.
@@ -147,7 +151,14 @@ Inductive expr :=
 | EOr (a b : expr)
 | ECat (a b : expr)                    (* String + String *)
 | EInspect (a : expr)                  (* Int#inspect, Bool#inspect *)
-| ECall (f : nat) (args : list expr).
+| ECall (f : nat) (args : list expr)
+| ENil
+| ESym (s : string)                    (* :name *)
+| EChar (s : string)                   (* `c` *)
+| ENew (c : nat) (k : expr)            (* K<c>(k): instance of user class c, field @k := k *)
+| EField                               (* @k of self (slot 0 of a class method) *)
+| ESend (r : expr) (name : nat) (args : list expr)   (* r.n<name>(args), dynamic dispatch *)
+| EList (es : list expr).              (* [e, ...] *)
 
 Inductive stmt :=
 | SAssign (x : nat) (e : expr)
@@ -155,13 +166,45 @@ Inductive stmt :=
 | SIf (c : expr) (t e : list stmt)
 | SWhile (c : expr) (b : list stmt)
 | SReturn (e : expr)
-| SExpr (e : expr).
+| SExpr (e : expr)
+| SForIn (x : nat) (e : expr) (b : list stmt).   (* for <slot x> in e ... end *)
 
 (* a method: number of parameters, initial values of its other locals, body, final expression *)
 Record meth := { m_params : nat; m_locals : list expr; m_body : list stmt; m_ret : expr }.
-Record prog := { p_meths : list meth; p_locals : list expr; p_main : list stmt }.
+(* a user class: optional superclass (index into the class table) and its OWN methods, keyed by
+   method-name index.  A class method sees self in slot 0, then parameters, then locals. *)
+Record cls := { c_parent : option nat; c_meths : list (nat * meth) }.
+Record prog := { p_meths : list meth; p_locals : list expr; p_main : list stmt;
+                 p_classes : list cls }.
 
-Inductive val := VInt (z : Z) | VBool (b : bool) | VStr (s : string).
+Inductive val :=
+| VInt (z : Z) | VBool (b : bool) | VStr (s : string)
+| VSym (s : string) | VChar (s : string) | VNil
+| VObj (c : nat) (k : Z)               (* instance of class c with field @k = k *)
+| VList (l : list val).
+
+(* method lookup by runtime class: the class's own method of that name, else the nearest
+   ancestor's; d bounds the length of the ancestor chain walked *)
+Fixpoint assoc_nat {A} (k : nat) (l : list (nat * A)) : option A :=
+  match l with
+  | [] => None
+  | (k', a) :: r => if Nat.eqb k k' then Some a else assoc_nat k r
+  end.
+Fixpoint find_meth (d : nat) (cs : list cls) (c name : nat) : option meth :=
+  match d with
+  | O => None
+  | S d' =>
+    match nth_error cs c with
+    | None => None
+    | Some k =>
+      match assoc_nat name (c_meths k) with
+      | Some m => Some m
+      | None => match c_parent k with Some q => find_meth d' cs q name | None => None end
+      end
+    end
+  end.
+Definition dispatch (cs : list cls) (c name : nat) : option meth :=
+  find_meth (S (List.length cs)) cs c name.
 
 (* outcome of evaluating something: a value, an Elk error (class, message), a type
    confusion (never happens for well-typed programs), or fuel exhaustion *)
@@ -184,12 +227,19 @@ Definition zero_div_class : string := "Std::ZeroDivisionError".
 Definition zero_div_msg : string := "cannot divide by zero".
 
 Definition z_to_string (z : Z) : string := NilZero.string_of_int (Z.to_int z).
-Definition inspect_val (v : val) : string :=
+(* Int#inspect, Bool#inspect, String#inspect (literal text is [a-z0-9 ] only: no escapes),
+   Symbol#inspect (identifier-like names only), Char#inspect, Nil#inspect *)
+Definition inspect_val (v : val) : option string :=
   match v with
-  | VInt z => z_to_string z
-  | VBool true => "true"
-  | VBool false => "false"
-  | VStr s => s
+  | VInt z => Some (z_to_string z)
+  | VBool true => Some "true"%string
+  | VBool false => Some "false"%string
+  | VStr s => Some (String """"%char s ++ String """"%char EmptyString)%string
+  | VSym s => Some (String ":"%char s)
+  | VChar s => Some (String "`"%char s ++ String "`"%char EmptyString)%string
+  | VNil => Some "nil"%string
+  | VObj _ _ => None
+  | VList _ => None
   end.
 
 Definition cop_eval (o : cop) (a b : Z) : bool :=
@@ -216,6 +266,20 @@ Fixpoint map_eval (ev : list string -> expr -> res val) (es : list expr) (out : 
   | e1 :: r =>
       rbind (ev out e1) (fun v out1 =>
       rbind (map_eval ev r out1) (fun vs out2 => ROk (v :: vs) out2))
+  end.
+
+(* run `body` for every element of l in order, threading environment and output; a `return`
+   inside the body ends the loop *)
+Fixpoint iter_list (body : val -> list val -> list string -> res flow) (l : list val)
+  (env : list val) (out : list string) : res flow :=
+  match l with
+  | [] => ROk (FNormal env) out
+  | v :: r =>
+      rbind (body v env out) (fun fl out1 =>
+        match fl with
+        | FReturn x => ROk (FReturn x) out1
+        | FNormal env' => iter_list body r env' out1
+        end)
   end.
 
 Fixpoint eval (fuel : nat) (p : prog) (env : list val) (out : list string) (e : expr) {struct fuel}
@@ -275,9 +339,9 @@ Fixpoint eval (fuel : nat) (p : prog) (env : list val) (out : list string) (e : 
           end))
     | EInspect a =>
         rbind (eval n p env out a) (fun va out1 =>
-          match va with
-          | VStr _ => RStuck out1
-          | v => ROk (VStr (inspect_val v)) out1
+          match inspect_val va with
+          | Some t => ROk (VStr t) out1
+          | None => RStuck out1
           end)
     | ECall f args =>
         match nth_error (p_meths p) f with
@@ -294,6 +358,43 @@ Fixpoint eval (fuel : nat) (p : prog) (env : list val) (out : list string) (e : 
                 | FNormal env'' => eval n p env'' out3 (m_ret m)
                 end)))
         end
+    | ENil => ROk VNil out
+    | ESym s => ROk (VSym s) out
+    | EChar s => ROk (VChar s) out
+    | ENew c k =>
+        match nth_error (p_classes p) c with
+        | None => RStuck out
+        | Some _ =>
+          rbind (eval n p env out k) (fun vk out1 =>
+            match vk with VInt z => ROk (VObj c z) out1 | _ => RStuck out1 end)
+        end
+    | EField =>
+        match env with
+        | VObj _ z :: _ => ROk (VInt z) out
+        | _ => RStuck out
+        end
+    | ESend r name args =>
+        rbind (eval n p env out r) (fun vr out0 =>
+          match vr with
+          | VObj c _ =>
+            (* dynamic dispatch: by the runtime class c of the receiver *)
+            match dispatch (p_classes p) c name with
+            | None => RStuck out0
+            | Some m =>
+              rbind (map_eval (fun o e1 => eval n p env o e1) args out0) (fun vs out1 =>
+                if negb (Nat.eqb (List.length vs) (m_params m)) then RStuck out1 else
+                rbind (map_eval (fun o e1 => eval n p [] o e1) (m_locals m) out1) (fun ls out2 =>
+                  let env' := (vr :: vs ++ ls)%list in
+                  rbind (exec n p env' out2 (m_body m)) (fun fl out3 =>
+                    match fl with
+                    | FReturn v => ROk v out3
+                    | FNormal env'' => eval n p env'' out3 (m_ret m)
+                    end)))
+            end
+          | _ => RStuck out0
+          end)
+    | EList es =>
+        rbind (map_eval (fun o e1 => eval n p env o e1) es out) (fun vs out1 => ROk (VList vs) out1)
     end
   end
 with exec (fuel : nat) (p : prog) (env : list val) (out : list string) (ss : list stmt) {struct fuel}
@@ -340,6 +441,18 @@ with exec (fuel : nat) (p : prog) (env : list val) (out : list string) (ss : lis
           rbind (eval n p env out e) (fun v out1 => ROk (FReturn v) out1)
       | SExpr e =>
           rbind (eval n p env out e) (fun _ out1 => exec n p env out1 rest)
+      | SForIn x e b =>
+          rbind (eval n p env out e) (fun v out1 =>
+            match v with
+            | VList l =>
+                rbind (iter_list (fun v1 env1 o1 => exec n p (set_nth x v1 env1) o1 b) l env out1)
+                  (fun fl out2 =>
+                    match fl with
+                    | FReturn r => ROk (FReturn r) out2
+                    | FNormal env' => exec n p env' out2 rest
+                    end)
+            | _ => RStuck out1
+            end)
       end
     end
   end.
